@@ -81,6 +81,9 @@ func (w *c06World) packet(t c06Tok) []byte {
 	case "recv":
 		return s.RecvPacketWithData(uint32(t.K), refpar2.RecoveryBlock(sl, uint32(t.K)))
 	case "unknown":
+		if t.K == 1 {
+			return refpar2.Frame(s.SetID, unknownType, nil) // empty body: length exactly 64
+		}
 		return refpar2.Frame(s.SetID, unknownType, []byte("whatever"))
 	}
 	panic("unknown token " + t.Type)
@@ -103,7 +106,7 @@ func volTokens(style string, exps []int) []c06Tok {
 		return append(append([]c06Tok{own("main", 0)}, rs...), own("creator", 0))
 	case "noisy":
 		out := append([]c06Tok{oth("recv")}, rs...)
-		out = append(out, own("unknown", 0), own("ifsc", 2), own("fd", 2), oth("creator"), own("main", 0), own("creator", 0), own("ifsc", 1), own("fd", 1))
+		out = append(out, own("unknown", 0), own("ifsc", 2), own("fd", 2), oth("creator"), own("unknown", 1), own("main", 0), own("creator", 0), own("ifsc", 1), own("fd", 1))
 		return append(out, rs...)
 	}
 	panic("style " + style)
